@@ -14,9 +14,10 @@ mv /tmp/demo_$ID.rs.aside $DEMO
 echo "SUITE-WITH-CHANGE: $S"
 W=$(cargo test --offline $T -p fast-tlsh --test demo_$ID 2>&1 | grep -E "^test result" | tr '\n' ';')
 echo "DEMO-WITH-CHANGE: $W"
-git stash push -q -- fast-tlsh/src
+# (no `git stash`: the stash is shared by all worktrees of a repository)
+git diff -- fast-tlsh/src > $D/patch.verified.diff
+git apply -R $D/patch.verified.diff
 O=$(cargo test --offline $T -p fast-tlsh --test demo_$ID 2>&1 | grep -E "^test result" | tr '\n' ';')
 echo "DEMO-WITHOUT-CHANGE: $O"
-git stash pop -q
-git diff -- fast-tlsh/src > $D/patch.verified.diff
+git apply $D/patch.verified.diff
 echo "$S" | grep -q "149 passed; 0 failed" && echo "$W" | grep -q "FAILED" && echo "$O" | grep -q "ok\." && ! echo "$O" | grep -q FAILED && echo "VERIFIED $ID"
